@@ -736,6 +736,25 @@ func registerC01() {
 		streamWorkload("faulted-streams", map[string]int{"quick": 30000, "thorough": 1000000}, streamGenOpts{mode: "c01", maxFiles: 3, maxVals: 4, selectors: true, faults: allFaults, faultProb: 90, sigProb: 25}),
 		progWorkload("resource", map[string]int{"quick": len(res), "thorough": len(res)}, func(i int, t *Tape, tier string) *ProgCase { return res[t.Forced(i, len(res))] }, true),
 		procWorkload("process", map[string]int{"quick": 3000, "thorough": 200000}, true),
+		{
+			// the signal grid once more, through the real binary (status / stderr / no stack trace)
+			Name:  "process-grid",
+			Count: func(tier string) int { return gridCount() },
+			Gen: func(i int, t *Tape, tier string) any {
+				g := gridCase(t.Forced(i, gridCount()))
+				pc := &ProcCase{Note: g.Note, Prog: g.Prog, Selectors: g.Selectors, OMode: []string{"", "-", "file"}[i%3], ViaF: i%5 == 0}
+				for _, in := range g.Inputs {
+					pc.Inputs = append(pc.Inputs, ProcFile{Name: in.Name, Data: in.Data, Kind: "regular"})
+				}
+				if len(pc.Inputs) > 1 {
+					pc.OMode = ""
+				}
+				return pc
+			},
+			Run:      func(c any, keep bool) Outcome { return runProcCase(c.(*ProcCase), keep, true) },
+			New:      func() any { return &ProcCase{} },
+			Simplify: simplifyProc,
+		},
 	}
 	register(p)
 }
